@@ -21,7 +21,7 @@ def jobs(tier):
     for B in (7, 10, 12, 15):
         J.append(job('bc', 5, B=B, pres='list', order='desc', checks=ck)); J.append(job('bc', 6, B=B, pres='list', order='desc', checks=ck))
     J.append(job('bc', 7, B=7, pres='list', order='desc', checks=ck)); J.append(job('bc', 7, B=12, pres='list', order='desc', checks=ck))
-    J.append(job('bc', 3, B=100, pres='list', checks=ck))
+    J.append(job('bc', 3, B=100, pres='list', checks=ck)); J.append(job('bc', 8, B=7, pres='list', order='desc', checks=ck))
     if tier == 'thorough':
         for alg in ('ff', 'bf'):
             J.append(job(alg, 5, checks=ck)); J.append(job(alg, 6, checks=ck, order='desc')); J.append(job(alg, 7, checks=ck, order='desc'))
